@@ -1095,6 +1095,11 @@ def c04(tier, seed):
             vkey = ('conforming' if why is None else 'nonconforming') + '/' + ('accepted' if st == 'ok' else 'rejected')
             verdicts[vkey] = verdicts.get(vkey, 0) + 1
             classes.add(hash((cn, label, vkey)))
+            if why is not None and why[0] == 'group-count-too-small':
+                # a misplaced copy of a group's first field directly behind its last announced element: a further element under a count that
+                # is too small, or a tag that is not defined at the enclosing level - the statement does not say which; no verdict either way
+                c.stats['undecided_extra_group_element'] = c.stats.get('undecided_extra_group_element', 0) + 1
+                continue
             if why is not None:
                 if label in ('none', 'numeric-variants'):
                     c.inconclusive.append('generator/oracle disagreement: %s judged %s: %r' % (label, why, b[:200]))
